@@ -20,6 +20,10 @@ pub fn gen_c15(rng: &mut Rng, run_seed: u64, miri: bool) -> Program {
     // sometimes some ordinary work on the victim first
     for _ in 0..rng.below(3) { let id = prog.add_op(0, Kind::Desync, Disp::None, vec![Step::Touch]); t0.push(TAct::Op(id)); }
     let mut old_future = None;
+    // sometimes a wake-up lands while the panicking body is executing: the future wakes itself without suspending, or an earlier
+    // future of the same object left a waker behind that fires during the panicking job
+    let wake_kind = rng.below(3);
+    if wake_kind == 2 && !matches!(variant, 2 | 3) { let id = prog.add_op(0, Kind::FutDesync, Disp::Detach, vec![Step::Touch, Step::StashWaker, Step::Touch]); t0.push(TAct::Op(id)); }
     match variant {
         0 => { prog.template = "panic_in_desync_job"; let id = prog.add_op(0, Kind::Desync, Disp::None, vec![Step::Touch, Step::Panic]); t0.push(TAct::Op(id)); }
         1 => { prog.template = "panic_in_sync_closure"; let id = prog.add_op(0, Kind::Sync, Disp::None, vec![Step::Touch, Step::Panic]); t0.push(TAct::Op(id)); }
@@ -62,6 +66,13 @@ pub fn gen_c15(rng: &mut Rng, run_seed: u64, miri: bool) -> Program {
             let id = prog.add_op(0, Kind::FutDesync, Disp::Detach, vec![Step::Touch, Step::Gate(g), Step::Panic]); t0.push(TAct::Op(id));
             let older = prog.add_op(0, Kind::FutDesync, Disp::Hold, vec![Step::Touch]); t0.push(TAct::Op(older));
             old_future = Some(older);
+        }
+    }
+    for op in prog.ops.iter_mut() {
+        if let Some(i) = op.body.iter().position(|s| *s == Step::Panic) {
+            let fut = matches!(op.kind, Kind::FutDesync | Kind::FutSync);
+            if wake_kind == 1 && fut { op.body.insert(i, Step::WakeOnly); }
+            if wake_kind == 2 { op.body.insert(i, Step::FireStashed); }
         }
     }
     // attempts on the panicked object, by the same thread that holds the older future (phase 1 is a continuation of thread 0)
